@@ -107,6 +107,35 @@ def mutate(rnd, data):
     return bytes(data)
 
 
+def count_sweep(tier):
+    """Cardinality sweeps: conventional files in which ONE structure is repeated n times, for every n in a range that
+    crosses the growth steps of the object's arrays and lists (the partners of the envelope's merges add 1..3 more)."""
+    ns = list(range(0, 73 if tier == "quick" else 301)) + [127, 128, 129, 255, 256, 257, 511, 512, 513, 1023, 1024, 1025]
+    if tier == "thorough":
+        ns += [4095, 4096, 4097]
+    out = []
+    for n in sorted(set(ns)):
+        files = [
+            b"".join(b"[s%d]\n" % i for i in range(n)),                                   # header-only sections
+            b"".join(b"[s%d]\nk=%d\n" % (i, i) for i in range(n)),                         # sections with one key
+            b"g=0\n" + b"".join(b"[s%d]\nk=%d\nl=%d\n" % (i, i, i) for i in range(n)),     # group-less key + sections with two keys
+            b"".join(b"k%d=%d\n" % (i, i) for i in range(n)),                              # group-less keys
+            b"[s]\n" + b"".join(b"k%d=%d\n" % (i, i) for i in range(n)),                   # keys of one section
+            b"".join(b"k=%d\n" % i for i in range(n)),                                    # one key repeated
+            b"k=v\n" + b"".join(b" c%d\n" % i for i in range(n)),                          # continuation lines
+            b"".join(b"# c%d\n" % i for i in range(n)) + b"k=v\n",                         # comment lines before an entry
+            b"".join(b"k%d\n" % i for i in range(n)),                                     # keys without delimiter
+            b"".join(b"[%s]\nk%d=1\n" % (b"ab"[i % 2:i % 2 + 1], i) for i in range(n)),      # two sections re-opened alternately
+        ]
+        for j, data in enumerate(files):
+            out.append((data, "=", "#", 0))
+            if n <= 80:
+                out.append((data, "=", "#", 1))                                           # JOIN_SAME_ENTRIES
+                if j in (3, 6, 8):
+                    out.append((data, " \t", "#;", 0))
+    return out
+
+
 def check_c04(exe, tier, seed, verdict):
     rnd = random.Random(seed)
     inputs = []
@@ -144,6 +173,9 @@ def check_c04(exe, tier, seed, verdict):
         for n in (8190, 8192, 8193, 70000):
             inputs.append((bytes([ch]) * n, "=", "#", 0))
             inputs.append((b"k=" + bytes([ch]) * n + b"\n x\n", "=", "#;", rnd.choice([0, 1, 2])))
+    ncount = len(inputs)
+    inputs += count_sweep(tier)
+    ncount = len(inputs) - ncount
     events, n_ok, n_parse, crashes = run_env(exe, inputs, verdict)
     ok, tr, _ = core.validate_trace("Envelope", os.path.join(core.SPEC, "Envelope.cfg"), events, timeout=600)
     mism = [x for x in tr.json_lines() if "mismatch" in x]
@@ -155,14 +187,14 @@ def check_c04(exe, tier, seed, verdict):
             continue          # reported above with the failing input
         verdict.violation("C04:envelope:%s" % e["rc"], {"kind": "class", "event": e}, "outside the envelope: %s (%d inputs)" % (json.dumps(e), e["n"]))
     cov = {"evaluations": len(inputs), "distinct_nontrivial": n_ok + n_parse,
-           "rule": "every byte string of length <= %d over the %d-symbol structural alphabet (blank, tab, newline, = : # ; \" [ ] a 1, NUL, 0xff): %d strings with delimiter '=' comment '#', a sample with the other parameter sets (blank / mixed / no delimiters, JOIN_SAME_ENTRIES, PYTHON_STYLE); %d byte-level mutations (insert/delete/replace/truncate, 1-3 edits) of random conventional files of all grammars; random byte strings; very long lines of structural characters around BUFSIZ. Each input: read; on success every listing, 17 getter calls on every key, 4 merges, write, re-read. Aggregated event classes validated by Envelope.tla; ASan/UBSan abort = violation with the input. non-trivial = read succeeded with >= 1 entry (%d) or failed with a parse error (%d)." % (
-               maxlen, len(alpha), nstr, nmut, n_ok, n_parse),
+           "rule": "every byte string of length <= %d over the %d-symbol structural alphabet (blank, tab, newline, = : # ; \" [ ] a 1, NUL, 0xff): %d strings with delimiter '=' comment '#', a sample with the other parameter sets (blank / mixed / no delimiters, JOIN_SAME_ENTRIES, PYTHON_STYLE); %d byte-level mutations (insert/delete/replace/truncate, 1-3 edits) of random conventional files of all grammars; random byte strings; very long lines of structural characters around BUFSIZ; %d cardinality sweeps (every count 0..%d, and around 128/256/512/1024, of: distinct sections with 0/1/2 keys, keys without / in one section, repetitions of one key, continuation lines, comment lines, keys without delimiter, re-opened sections - the counts at which the object's arrays and lists grow). Each input: read; on success every listing, 17 getter calls on every key, 4 merges, write, re-read. Aggregated event classes validated by Envelope.tla; ASan/UBSan abort = violation with the input. non-trivial = read succeeded with >= 1 entry (%d) or failed with a parse error (%d)." % (
+               maxlen, len(alpha), nstr, nmut, ncount, 72 if tier == "quick" else 300, n_ok, n_parse),
            "samples": events[:4], "exhaustive": False, "event_classes": len(events), "crashing_inputs": crashes,
            "trusted_base": ["gcc ASan/UBSan", "driver watchdog (20 s alarm per case)", "TLC 1.8.0 (envelope classes)"]}
     return cov
 
 
-KINDS = ["value", "quoted", "key", "section", "contline", "cbefore", "cafter"]
+KINDS = ["value", "quoted", "key", "section", "contline", "cbefore", "cafter", "joined"]
 
 
 def check_c14(exe, tier, seed, verdict):
@@ -172,6 +204,14 @@ def check_c14(exe, tier, seed, verdict):
     for kind in KINDS:
         for n in lens:
             cases.append(("%s-%d" % (kind, n), ["longprobe %s %d %s" % (kind, n, hx(ROOT + "/lg"))]))
+    # dense sweep: every length that crosses the small growth steps (64, 128, 256, ...) and the stdio buffer size
+    dense = list(range(1, 331 if tier == "quick" else 1100)) + list(range(BUFSIZ - 70, BUFSIZ + 71)) + \
+        ([] if tier == "quick" else list(range(2 * BUFSIZ - 70, 2 * BUFSIZ + 71)) + list(range(65536 - 70, 65536 + 71)))
+    dense = [n for n in dense if n not in lens]
+    for kind in KINDS:
+        for b in range(0, len(dense), 40):
+            cases.append(("%s-%d..%d" % (kind, dense[b], dense[min(b + 39, len(dense) - 1)]),
+                          ["longprobe %s %d %s" % (kind, n, hx(ROOT + "/lg")) for n in dense[b:b + 40]]))
     for n in (6, 200, 254, 255, 256):
         cases.append(("filename-%d" % n, ["longname filename %d %s" % (n, hx(ROOT + "/ln%d" % n))]))
     for n in (8, 254, 255):
@@ -214,7 +254,7 @@ def check_c14(exe, tier, seed, verdict):
         verdict.violation("C14:%s:%s" % (e["kind"], e["api"].replace(" ", "")), {"kind": "long", "event": e, "spec": x["spec"]},
                           "%s of %d bytes through %s: %s, %d bytes came back, head intact %s, tail intact %s" % (e["kind"], e["len"], e["api"], e["rc"], e["out_len"], e["head_ok"], e["tail_ok"]))
     cov = {"evaluations": len(events), "distinct_nontrivial": nn,
-           "rule": "field kinds {value, quoted value, key, section name, continuation line, comment before, comment after} x lengths {1, BUFSIZ-2 .. BUFSIZ+2, 2*BUFSIZ, 64 Ki, %s} through: econf_readFile, plain / extended getters, listings, econf_mergeFiles + getters, econf_writeFile + econf_readFile + getters, and the setters; file names of 6..256 bytes read directly and as drop-in; paths of 200 and PATH_MAX-3 .. PATH_MAX+2 bytes; option strings of 8 Ki .. 70 Ki. The field carries distinct head and tail markers; Envelope!TLong requires out_len = len and both markers (names beyond NAME_MAX / PATH_MAX: an error code, no crash). non-trivial = length >= BUFSIZ-2." % ("1 Mi" if tier == "thorough" else "200000"),
+           "rule": "field kinds {value, quoted value, key, section name, continuation line, comment before, comment after, second definition joined under JOIN_SAME_ENTRIES} x lengths {EVERY length 1..%d and BUFSIZ-70..BUFSIZ+70%s, 2*BUFSIZ, 64 Ki, %s} through: econf_readFile, plain / extended getters, listings, econf_mergeFiles + getters, econf_writeFile + econf_readFile + getters, and the setters; file names of 6..256 bytes read directly and as drop-in; paths of 200 and PATH_MAX-3 .. PATH_MAX+2 bytes; option strings of 8 Ki .. 70 Ki. The field carries distinct head and tail markers; Envelope!TLong requires out_len = len and both markers (names beyond NAME_MAX / PATH_MAX: an error code, no crash). non-trivial = length >= BUFSIZ-2." % (330 if tier == "quick" else 1099, "" if tier == "quick" else ", around 2*BUFSIZ and 64 Ki", "1 Mi" if tier == "thorough" else "200000"),
            "samples": events[:3], "exhaustive": True,
            "trusted_base": ["gcc ASan/UBSan", "TLC 1.8.0 (Envelope!TLong)", "drv.c longprobe/longname"]}
     return cov
